@@ -25,6 +25,31 @@ def rename(t, mapping):
     return algebra.canon(f(t))
 
 
+def _collinear_guard(g, truth):
+    """g (taken with `truth`) is a test of |a x b| against a constant -> (edge means collinear?, threshold) else None.
+    `n == 0.0` has threshold 0; `n < c` / `n <= c` have threshold c."""
+    g = strip(g)
+    if not (isinstance(g, tuple) and g[0] == 'bin' and g[1] in ('Eq', 'Ne', 'Lt', 'Le', 'Gt', 'Ge') and truth in (True, False)):
+        return None
+    if not mir.contains(g, lambda x: x[0] == 'call' and cname(x[1]).split('::')[-1] == 'cross'):
+        return None
+    a, b = strip(g[2]), strip(g[3])
+    ca, cb = util._fnum(a), util._fnum(b)
+    if g[1] in ('Eq', 'Ne'):
+        c = cb if cb is not None else ca
+        if c is None:
+            return None
+        return ((g[1] == 'Eq') == truth, abs(c))
+    # orderings: bring to  n < c  /  n <= c  (collinear) versus the opposite
+    if cb is not None:                       # n OP c
+        small = g[1] in ('Lt', 'Le')
+        return (small == truth, abs(cb))
+    if ca is not None:                       # c OP n
+        small = g[1] in ('Gt', 'Ge')
+        return (small == truth, abs(ca))
+    return None
+
+
 def run(ctx):
     prog = ctx.prog
     ctx.rule('R17.1', 'target basis == source basis under p_i -> q_i; each basis is (normalize(v1), normalize(v1 x v2), e1 x e2)')
@@ -91,8 +116,16 @@ def run(ctx):
     tol = util.const_val(cong[0][0][8]) if cong else None
     ctx.check(ok and tol is not None and abs(tol - 0.005) < 1e-15, 'R17.3', 'congruence-call', fr.where(0), fr.path,
               'the congruence test must be applied to (p1,p2,p3,q1,q2,q3) with the 5 mm tolerance before anything else', found='%s tol=%s' % ([show(x) for x in cong[0][0][2:8]] if cong else None, tol))
-    col = [(g, v) for g, v in gs if isinstance(g, tuple) and g[0] == 'bin' and g[1] == 'Eq' and 'cross' in show(g, maxdepth=4)]
-    ctx.check(len(col) == 2 and all(v is False for g, v in col), 'R17.3', 'collinearity-guards', fr.where(0), fr.path, 'both collinearity tests must pass before the frame is built')
+    col = []
+    for g, v in gs:
+        cg = _collinear_guard(g, v)
+        if cg is not None:
+            col.append((g, cg[0], cg[1]))
+    ctx.check(len(col) == 2 and all(c is False for g, c, th in col), 'R17.3', 'collinearity-guards', fr.where(0), fr.path, 'both collinearity tests must pass before the frame is built')
+    big = [th for g, c, th in col if th is None or th > 1e-12]
+    ctx.check(not big, 'R17.3', 'collinearity-threshold', fr.where(0), fr.path,
+              'points count as collinear only when the cross product of the spanning vectors vanishes; a threshold of %s on that area-valued '
+              'quantity rejects small or slender but perfectly valid triangles' % big, found=str(big), detail='cross(..).norm() == 0')
     # error returns
     for t_, d, rb in fr.return_values():
         t_ = strip(t_)
@@ -108,11 +141,14 @@ def run(ctx):
         if isinstance(inner, tuple) and inner[0] == 'call' and cname(inner[1]) == 'ColinearPoints::new':
             pts = [util.param_index(x) for x in inner[2:5]]
             flag = util.const_val(inner[5])
-            last = [(g, v) for g, v in g2 if isinstance(g, tuple) and g[0] == 'bin' and g[1] == 'Eq'][-1]
-            cr = strip(strip(last[0][2])[2]) if isinstance(strip(last[0][2]), tuple) else None   # norm(&cross(a,b))
+            cgs = [(g, _collinear_guard(g, v)) for g, v in g2 if _collinear_guard(g, v) is not None]
+            if not cgs:
+                ctx.violation('R17.3', 'collinear-error-guard', fr.where(d[1]), fr.path, 'a ColinearPoints error is returned on a path that no collinearity test guards')
+                continue
+            last = cgs[-1]
             used = sorted({x[1] for x in mir.subterms(last[0], lambda x: x[0] == 'param')})
             want_pts, want_flag = ([1, 2, 3], 1) if used == [1, 2, 3] else ([4, 5, 6], 0)
-            ok = last[1] is True and pts == want_pts and flag in (want_flag, bool(want_flag)) and used in ([1, 2, 3], [4, 5, 6])
+            ok = last[1][0] is True and pts == want_pts and flag in (want_flag, bool(want_flag)) and used in ([1, 2, 3], [4, 5, 6])
             ctx.check(ok, 'R17.3', 'collinear-%s' % ('source' if used == [1, 2, 3] else 'target'), fr.where(d[1]), fr.path,
                       'the collinearity error must carry the points that were tested and the matching source/target flag', found='tested %s, reported %s source=%s' % (used, pts, flag))
     # congruence body
